@@ -50,6 +50,7 @@ type verdict struct {
 	diffs  []diff
 	notes  map[string]bool
 	doc    string
+	raw    []byte // XML: the document as the exporter returned it (not copied)
 	unspec string // != "": the whole case is outside the specification
 }
 
@@ -93,7 +94,7 @@ func verify(b *et.Builder, c kase) (v verdict) {
 			return verdict{class: "malformed", doc: string(doc), diffs: []diff{{dMalformed, "", "output is not well-formed", "well-formed XML", err.Error()}}}
 		}
 		checkXMLDoc(c.n, root, d)
-		v = verdict{class: "ok", diffs: d.list, notes: d.notes, doc: string(doc)}
+		v = verdict{class: "ok", diffs: d.list, notes: d.notes, doc: string(doc), raw: doc}
 		if len(d.list) > 0 {
 			v.class = d.list[0].kind
 		}
@@ -284,6 +285,11 @@ type runner struct {
 	// evidence shows cases of every space
 	nspace, cnt, pending int
 	sampleHere           bool
+	// the XML document of the previous XML case as returned, its content at that time, and the case:
+	// a document must stay what it was when later values are exported
+	prevRaw  []byte
+	prevText string
+	prevCase kase
 }
 
 const nSpaces = 9
@@ -309,6 +315,16 @@ func (r *runner) check(c kase, _, countNontrivial bool) {
 	ctx.Eval()
 	v := verify(r.b, c)
 	ctx.Outcome(v.class)
+	if r.prevRaw != nil && string(r.prevRaw) != r.prevText {
+		ctx.Outcome("earlier-document-changed")
+		m := c.repro()
+		m["earlier"] = r.prevCase.repro()
+		ctx.Violate("the document of an earlier export changed when a later value was exported", m, fmt.Sprintf("%q", trunc(r.prevText, 300)), fmt.Sprintf("%q", trunc(string(r.prevRaw), 300)), "")
+	}
+	r.prevRaw = nil
+	if v.raw != nil {
+		r.prevRaw, r.prevText, r.prevCase = v.raw, v.doc, c
+	}
 	if v.unspec != "" {
 		ctx.Unspecified(v.unspec)
 		return
@@ -789,10 +805,10 @@ func (r *runner) wrappersDeep(wr []int) {
 	ctx.SpaceDone(fmt.Sprintf("all %d trees of height <= 3 over string / int leaves, lists, maps and %d wrappers: ToHtml (maxListSize 1..3 and inlineStyle by shape index), XML exporter on every second shape", sp.Count(3), len(wr)))
 }
 
-func replay(repro map[string]any) (string, bool) {
+func caseOf(repro map[string]any) (kase, error) {
 	n, err := et.FromRepro(repro["tree"])
 	if err != nil {
-		return "cannot decode the case: " + err.Error(), true
+		return kase{}, err
 	}
 	c := kase{n: n}
 	if repro["exporter"] == "html" {
@@ -801,6 +817,27 @@ func replay(repro map[string]any) (string, bool) {
 			c.max = int(f)
 		}
 		c.inline, _ = repro["inlineStyle"].(bool)
+	}
+	return c, nil
+}
+
+func replay(repro map[string]any) (string, bool) {
+	c, err := caseOf(repro)
+	if err != nil {
+		return "cannot decode the case: " + err.Error(), true
+	}
+	if e, ok := repro["earlier"].(map[string]any); ok {
+		ec, err := caseOf(e)
+		if err != nil {
+			return "cannot decode the earlier case: " + err.Error(), true
+		}
+		b := et.NewBuilder()
+		ev := verify(b, ec)
+		verify(b, c)
+		if string(ev.raw) != ev.doc {
+			return fmt.Sprintf("the document %q of the earlier export reads %q after the later export", trunc(ev.doc, 300), trunc(string(ev.raw), 300)), true
+		}
+		return fmt.Sprintf("the document %q of the earlier export is unchanged after the later export", trunc(ev.doc, 300)), false
 	}
 	v := verify(et.NewBuilder(), c)
 	if v.ok() {
@@ -814,7 +851,7 @@ func main() {
 	bex.Main(&bex.Check{
 		ID:    "C18",
 		Level: "exploration",
-		Rule: "a case is one value tree (description in internal/exptree: lists and maps in a named representation, scalars, Format / Link / File wrappers with style strings, maps and closures) and one exporter (export.XML through export.Export, or export.ToHtml with maxListSize and inlineStyle). The complete output is tokenised by encoding/xml (strict, raw tokens; the harness adds end-tag matching, attribute uniqueness, single root, no comment / PI / directive / CDATA) and compared with the tree the property prescribes: XML list -> <list><entry>…, map -> <map> with the keys as attributes (only if every key is an XML name and every value a scalar) or <entry key=…> children, scalars as character data; HTML against a reference model of the documented table layout, with element / attribute names restricted to the exporter's vocabulary. Every text and attribute value must decode to exactly the string of the value. " +
+		Rule: "a case is one value tree (description in internal/exptree: lists and maps in a named representation, scalars, Format / Link / File wrappers with style strings, maps and closures) and one exporter (export.XML through export.Export, or export.ToHtml with maxListSize and inlineStyle). The complete output is tokenised by encoding/xml (strict, raw tokens; the harness adds end-tag matching, attribute uniqueness, single root, no comment / PI / directive / CDATA) and compared with the tree the property prescribes: XML list -> <list><entry>…, map -> <map> with the keys as attributes (only if every key is an XML name and every value a scalar) or <entry key=…> children, scalars as character data; HTML against a reference model of the documented table layout, with element / attribute names restricted to the exporter's vocabulary. Every text and attribute value must decode to exactly the string of the value; the XML document of every case is kept as returned and must be unchanged after the next cases have been exported. " +
 			"distinct_nontrivial = distinct outputs that contain at least one escaped character or come from a tree of depth >= 2 (counted per worker by a hash of the output and summed; all variants of one string / shape run in the same worker)",
 		Assumptions: []string{
 			"strings, keys, styles, link targets, file names consist of legal XML characters (the property's domain); map keys are distinct",
